@@ -1003,7 +1003,33 @@ void at_level(Ctx& cx, View v, std::size_t depth)
         using size_type = typename decltype(g)::size_type;
         if constexpr(decltype(flat)::value)
         {
-            auto e = g[(size_type)st.entry];
+            const std::ptrdiff_t i = (std::ptrdiff_t)st.entry;
+            auto pick = [&]() {
+                switch(st.route)
+                {
+                case 1: return *(g.begin() + i);
+                case 2:
+                {
+                    const std::ptrdiff_t back = (std::ptrdiff_t)g.size() - i;
+                    return *(g.end() - back);
+                }
+                case 3: return g.back();
+                case 4: return g.front();
+                case 5:
+                {
+                    auto it = g.begin();
+                    for(std::ptrdiff_t k = 0; k < i; k++) ++it;
+                    return *it;
+                }
+                case 6:
+                {
+                    const std::ptrdiff_t back = (std::ptrdiff_t)g.size() - i;
+                    return g.end()[-back];
+                }
+                default: return g[(size_type)st.entry];
+                }
+            };
+            auto e = pick();
             at_level<Child, decltype(e), TagId>(cx, e, depth + 1);
         }
         else
